@@ -11,6 +11,17 @@ TECH = ('dynamic symbolic execution of the real (AST-lifted) code over z3: input
         'per path by the solver; counterexamples replayed on the unlifted package')
 
 CHECKS = {
+    'C04': dict(
+        text='Bounded symbolic model checking of error containment on the real parser: a damage string of '
+             'every length up to the bound (kept on a path only if the solver-decided tokenisation shows it '
+             'lexically balanced and token-independent of the carrier) is inserted at declaration and '
+             'statement boundaries of 19 carriers; per path the solver proves that the DOM of the damaged '
+             'sheet is the DOM without the following construct plus that construct, and starts with the '
+             'preceding construct - whatever the damage itself turns into. Truncation of two skeleton sheets '
+             'at every position is enumerated concretely.',
+        note='Trusted: z3; symbolic regex; DOM projection; the balance / independence predicate is computed '
+             'with the implementation\'s own tokenizer (its conformance is C05\'s subject).',
+        design='3 C04'),
     'C05': dict(
         text='Bounded symbolic model checking of the real Tokenizer.tokenize: every Unicode text up '
              'to the length bound (each character a z3 variable over 0..0x10FFFF) is covered by '
